@@ -14,6 +14,7 @@ from typing import (
     Dict,
     cast,
     Set,
+    FrozenSet,
 )
 
 import icontract._represent
@@ -651,9 +652,24 @@ def resolve_kwdefaults(sign: inspect.Signature) -> Dict[str, Any]:
 # contract checking is already in progress.
 #
 # The key refers to the id() of the function (preconditions and postconditions) or instance (invariants).
+#
+# The value is an *immutable* set which is replaced, never mutated. A context copied from another context
+# (*e.g.*, by ``asyncio.create_task`` or ``contextvars.copy_context``) shares the values of the original context
+# by reference. If the value were a mutable set, all the tasks and threads running in copies of a context, which
+# had already executed a contract check, would disable each other's checks.
 _IN_PROGRESS = contextvars.ContextVar(
-    "_IN_PROGRESS", default=None
-)  # type: contextvars.ContextVar[Optional[Set[int]]]
+    "_IN_PROGRESS", default=frozenset()
+)  # type: contextvars.ContextVar[FrozenSet[int]]
+
+
+def _add_in_progress(an_id: int) -> None:
+    """Mark the function or the instance with ``an_id`` as being checked in the current context."""
+    _IN_PROGRESS.set(_IN_PROGRESS.get() | {an_id})
+
+
+def _discard_in_progress(an_id: int) -> None:
+    """Remove the mark that the function or the instance with ``an_id`` is being checked in the current context."""
+    _IN_PROGRESS.set(_IN_PROGRESS.get() - {an_id})
 
 
 def decorate_with_checker(func: CallableT) -> CallableT:
@@ -720,14 +736,7 @@ def decorate_with_checker(func: CallableT) -> CallableT:
             if kwargs_error:
                 raise kwargs_error
 
-            # We need to create a new in-progress set if it is None as the ``ContextVar`` does not accept
-            # a factory function for the default argument. If we didn't do this, and simply set an empty
-            # set as the default, ``ContextVar`` would always point to the same set by copying the default
-            # by reference.
             in_progress = _IN_PROGRESS.get()
-            if in_progress is None:
-                in_progress = set()
-                _IN_PROGRESS.set(in_progress)
 
             # If the wrapper is already checking the contracts for the wrapped function, avoid a recursive loop
             # by skipping any subsequent contract checks for the same function.
@@ -737,7 +746,7 @@ def decorate_with_checker(func: CallableT) -> CallableT:
             if id_func in in_progress:
                 return await func(*args, **kwargs)
 
-            in_progress.add(id_func)
+            _add_in_progress(id_func)
 
             # Use try-finally instead of ExitStack for performance.
             try:
@@ -770,7 +779,7 @@ def decorate_with_checker(func: CallableT) -> CallableT:
                         snapshots=snapshots, resolved_kwargs=resolved_kwargs
                     )
             finally:
-                in_progress.discard(id_func)
+                _discard_in_progress(id_func)
 
             # The contract checking is suspended only while the contracts are checked, but not while the function
             # itself is executed. Otherwise, the calls to the same function made from its body (*e.g.*, in a recursion)
@@ -782,7 +791,7 @@ def decorate_with_checker(func: CallableT) -> CallableT:
             result = await func(*args, **kwargs)
 
             if postconditions:
-                in_progress.add(id_func)
+                _add_in_progress(id_func)
 
                 try:
                     resolved_kwargs["result"] = result
@@ -793,7 +802,7 @@ def decorate_with_checker(func: CallableT) -> CallableT:
                     if violation_error:
                         raise violation_error
                 finally:
-                    in_progress.discard(id_func)
+                    _discard_in_progress(id_func)
 
             return result
 
@@ -805,14 +814,7 @@ def decorate_with_checker(func: CallableT) -> CallableT:
             if kwargs_error:
                 raise kwargs_error
 
-            # We need to create a new in-progress set if it is None as the ``ContextVar`` does not accept
-            # a factory function for the default argument. If we didn't do this, and simply set an empty
-            # set as the default, ``ContextVar`` would always point to the same set by copying the default
-            # by reference.
             in_progress = _IN_PROGRESS.get()
-            if in_progress is None:
-                in_progress = set()
-                _IN_PROGRESS.set(in_progress)
 
             # If the wrapper is already checking the contracts for the wrapped function, avoid a recursive loop
             # by skipping any subsequent contract checks for the same function.
@@ -822,7 +824,7 @@ def decorate_with_checker(func: CallableT) -> CallableT:
             if id_func in in_progress:
                 return func(*args, **kwargs)
 
-            in_progress.add(id_func)
+            _add_in_progress(id_func)
 
             # Use try-finally instead of ExitStack for performance.
             try:
@@ -857,7 +859,7 @@ def decorate_with_checker(func: CallableT) -> CallableT:
                         snapshots=snapshots, resolved_kwargs=resolved_kwargs, func=func
                     )
             finally:
-                in_progress.discard(id_func)
+                _discard_in_progress(id_func)
 
             # The contract checking is suspended only while the contracts are checked, but not while the function
             # itself is executed. Otherwise, the calls to the same function made from its body (*e.g.*, in a recursion)
@@ -869,7 +871,7 @@ def decorate_with_checker(func: CallableT) -> CallableT:
             result = func(*args, **kwargs)
 
             if postconditions:
-                in_progress.add(id_func)
+                _add_in_progress(id_func)
 
                 try:
                     resolved_kwargs["result"] = result
@@ -882,7 +884,7 @@ def decorate_with_checker(func: CallableT) -> CallableT:
                     if violation_error:
                         raise violation_error
                 finally:
-                    in_progress.discard(id_func)
+                    _discard_in_progress(id_func)
 
             return result
 
@@ -1049,14 +1051,7 @@ def _decorate_with_invariants(func: CallableT, is_init: bool) -> CallableT:
 
             # We need to disable the invariants check during the constructor.
 
-            # We need to create a new in-progress set if it is None as the ``ContextVar`` does not accept
-            # a factory function for the default argument. If we didn't do this, and simply set an empty
-            # set as the default, ``ContextVar`` would always point to the same set by copying the default
-            # by reference.
             in_progress = _IN_PROGRESS.get()
-            if in_progress is None:
-                in_progress = set()
-                _IN_PROGRESS.set(in_progress)
 
             id_instance = id(instance)
             if id_instance in in_progress:
@@ -1066,7 +1061,7 @@ def _decorate_with_invariants(func: CallableT, is_init: bool) -> CallableT:
                 # We must also not re-enable the checks for the instance on leaving this call.
                 return func(*args, **kwargs)
 
-            in_progress.add(id_instance)
+            _add_in_progress(id_instance)
 
             # ExitStack is not used here due to performance.
             try:
@@ -1077,7 +1072,7 @@ def _decorate_with_invariants(func: CallableT, is_init: bool) -> CallableT:
 
                 return result
             finally:
-                in_progress.discard(id_instance)
+                _discard_in_progress(id_instance)
 
     else:
         # (mristin, 2021-02-16)
@@ -1113,20 +1108,13 @@ def _decorate_with_invariants(func: CallableT, is_init: bool) -> CallableT:
                     else instance.__class__.__invariants_on_call__
                 )
 
-                # We need to create a new in-progress set if it is None as the ``ContextVar`` does not accept
-                # a factory function for the default argument. If we didn't do this, and simply set an empty
-                # set as the default, ``ContextVar`` would always point to the same set by copying the default
-                # by reference.
                 in_progress = _IN_PROGRESS.get()
-                if in_progress is None:
-                    in_progress = set()
-                    _IN_PROGRESS.set(in_progress)
 
                 # The following dunder indicates whether another invariant is currently being checked. If so,
                 # we need to suspend any further invariant check to avoid endless recursion.
                 id_instance = id(instance)
                 if id_instance not in in_progress:
-                    in_progress.add(id_instance)
+                    _add_in_progress(id_instance)
                 else:
                     # Do not check any invariants to avoid endless recursion.
                     return await func(*args, **kwargs)
@@ -1143,7 +1131,7 @@ def _decorate_with_invariants(func: CallableT, is_init: bool) -> CallableT:
 
                     return result
                 finally:
-                    in_progress.discard(id_instance)
+                    _discard_in_progress(id_instance)
 
         else:
 
@@ -1170,18 +1158,11 @@ def _decorate_with_invariants(func: CallableT, is_init: bool) -> CallableT:
                 # The following dunder indicates whether another invariant is currently being checked. If so,
                 # we need to suspend any further invariant check to avoid endless recursion.
 
-                # We need to create a new in-progress set if it is None as the ``ContextVar`` does not accept
-                # a factory function for the default argument. If we didn't do this, and simply set an empty
-                # set as the default, ``ContextVar`` would always point to the same set by copying the default
-                # by reference.
                 in_progress = _IN_PROGRESS.get()
-                if in_progress is None:
-                    in_progress = set()
-                    _IN_PROGRESS.set(in_progress)
 
                 id_instance = id(instance)
                 if id_instance not in in_progress:
-                    in_progress.add(id_instance)
+                    _add_in_progress(id_instance)
                 else:
                     # Do not check any invariants to avoid endless recursion.
                     return func(*args, **kwargs)
@@ -1198,7 +1179,7 @@ def _decorate_with_invariants(func: CallableT, is_init: bool) -> CallableT:
 
                     return result
                 finally:
-                    in_progress.discard(id_instance)
+                    _discard_in_progress(id_instance)
 
     functools.update_wrapper(wrapper=wrapper, wrapped=func)
 
